@@ -115,8 +115,85 @@ fn grc(a: &[&str]) -> (ManifestResourceConstraint, usize) {
     (c, k + 2 + na)
 }
 
+/// the 14 entity HRPs of a network in HrpSet field order, then a transaction-part HRP
+fn hrp_table(suffix: &str) -> Vec<String> {
+    ["package", "resource", "component", "account", "identity", "consensusmanager", "validator", "accesscontroller", "pool",
+     "locker", "transactiontracker", "internal_vault", "internal_component", "internal_keyvaluestore", "txid"]
+        .iter()
+        .map(|p| format!("{}_{}", p, suffix))
+        .collect()
+}
+
+/// addr_decode <bech32 decodable 0|1> <hrp 0..14 simulator table | 15 same prefix on another network | 16 unrelated>
+///             <variant 0 Bech32|1 Bech32m> <base32 payload valid 0|1> <data length 0..2 (2 = full 30 bytes)> <entity byte>
+/// builds the text with the bech32 crate and runs the REAL AddressBech32Decoder::validate_and_decode (simulator network)
+fn addr_decode(a: &[&str]) -> String {
+    use bech32::ToBase32;
+    let n = |t: &str| -> usize { t.parse().unwrap() };
+    let (dec_ok, hrp, variant, b32_ok, len, eb) = (n(a[0]), n(a[1]), n(a[2]), n(a[3]), n(a[4]), n(a[5]) as u8);
+    let sim = hrp_table("sim");
+    let hrp_s = if hrp < 15 {
+        sim[hrp].clone()
+    } else if hrp == 15 {
+        // the HRP the entity byte would have on another network
+        "account_tdx_2_".to_string()
+    } else {
+        "unrelated".to_string()
+    };
+    let text = if dec_ok == 0 {
+        format!("{}1notbech32", hrp_s)
+    } else {
+        let var = if variant == 1 { bech32::Variant::Bech32m } else { bech32::Variant::Bech32 };
+        let data: Vec<bech32::u5> = if b32_ok == 0 {
+            vec![bech32::u5::try_from_u8(1).unwrap()]
+        } else {
+            let mut bytes = vec![];
+            if len >= 1 {
+                bytes.push(eb);
+            }
+            if len >= 2 {
+                bytes.extend([7u8; 29]);
+            }
+            bytes.to_base32()
+        };
+        bech32::encode(&hrp_s, data, var).unwrap()
+    };
+    let d = radix_common::address::AddressBech32Decoder::for_simulator();
+    match d.validate_and_decode(&text) {
+        Ok((e, data)) => format!("ok {} {}", e as u8, data.len()),
+        Err(_) => "err".to_string(),
+    }
+}
+
+/// addr_encode <data length 0..2> <entity byte>: REAL AddressBech32Encoder::encode (simulator), then the HRP of the text
+/// as an index into the simulator table; prints `ok <hrp index> <round trip through the real decoder 0|1>` or `err`
+fn addr_encode(a: &[&str]) -> String {
+    let n = |t: &str| -> usize { t.parse().unwrap() };
+    let (len, eb) = (n(a[0]), n(a[1]) as u8);
+    let mut bytes = vec![];
+    if len >= 1 {
+        bytes.push(eb);
+    }
+    if len >= 2 {
+        bytes.extend([7u8; 29]);
+    }
+    let e = radix_common::address::AddressBech32Encoder::for_simulator();
+    match e.encode(&bytes) {
+        Ok(text) => {
+            let hrp = text.rsplitn(2, '1').last().unwrap().to_string();
+            let idx = hrp_table("sim").iter().position(|h| *h == hrp).map(|i| i as i64).unwrap_or(-1);
+            let d = radix_common::address::AddressBech32Decoder::for_simulator();
+            let rt = matches!(d.validate_and_decode(&text), Ok((_, ref back)) if *back == bytes);
+            format!("ok {} {}", idx, rt as u8)
+        }
+        Err(_) => "err".to_string(),
+    }
+}
+
 fn run(a: &[&str]) -> String {
     match a[0] {
+        "addr_decode" => addr_decode(&a[1..]),
+        "addr_encode" => addr_encode(&a[1..]),
         "grc_valid_nf" => {
             let (c, _) = grc(&a[1..]);
             format!("val {}", if c.is_valid_for_non_fungible_use() { 1 } else { 0 })
